@@ -33,10 +33,9 @@ def showRead : ReadRes → String
       | some f => f.returnsNumber true (signOf (normalize d).1)
     s!"{showDecimal d} num={bool num}"
 
-/-- the binary64 value the five-rounding computation of `ConvertReading` returns (`FloatModel.convertFloat` under `rnd64`), as
-    the exact rational `num/den`; `!` appended should the exponent self-check of `rnd64` ever fail on a non-zero intermediate
-    (the value would then not be a binary64 number; never observed) -/
-def showLinearFloat (rd : Reader) (raw : UInt8) : String :=
+/-- the binary64 value the five-rounding computation of `ConvertReading` returns (`FloatModel.convertFloat` under `rnd64`), and
+    whether the exponent self-check of `rnd64` held on every non-zero intermediate (proved always: `exponentOk_of_ne_zero`) -/
+def linearFloat (rd : Reader) (raw : UInt8) : Rat × Bool :=
   let l := rd.lin
   let x := l.parser.parse raw
   let R := FloatModel.Rounding.binary64
@@ -49,8 +48,26 @@ def showLinearFloat (rd : Reader) (raw : UInt8) : String :=
   let t3 := s * p2
   let r := R.rnd t3
   let ok (q : Rat) : Bool := q == 0 || FloatModel.exponentOk q
-  let allOk := ok ((10 : Rat) ^ l.bExp) && ok t1 && ok t2 && ok ((10 : Rat) ^ l.rExp) && ok t3
-  s!"{r.num}/{r.den}" ++ (if allOk then "" else "!")
+  (r, ok ((10 : Rat) ^ l.bExp) && ok t1 && ok t2 && ok ((10 : Rat) ^ l.rExp) && ok t3)
+
+def showRat (r : Rat) : String := s!"{r.num}/{r.den}"
+
+/-- as the exact rational `num/den`; `!` appended should the self-check ever fail -/
+def showLinearFloat (rd : Reader) (raw : UInt8) : String :=
+  let (r, allOk) := linearFloat rd raw
+  showRat r ++ (if allOk then "" else "!")
+
+/-- the three linearisations Go computes with correctly rounded operations only — `math.Pow(f, -1)` is `1/f`, `math.Pow(f, 2)` is
+    `f*f`, `math.Pow(f, 3)` is `(f*f)*f` (the repeated-squaring loop of `math.pow` on the `Frexp` mantissa; scaling by powers of two
+    is exact) — evaluated under `rnd64` on the model's linear value: the binary64 the linearised reader returns, bit for bit -/
+def showLinearised (rd : Reader) (raw : UInt8) : String :=
+  let R := FloatModel.Rounding.binary64
+  let v := (linearFloat rd raw).1
+  match rd with
+  | .linearised _ .powFNeg1 => if v == 0 then " ~nl=inf" else s!" ~nl={showRat (R.rnd (1 / v))}"
+  | .linearised _ .powF2 => s!" ~nl={showRat (R.rnd (v * v))}"
+  | .linearised _ .powF3 => s!" ~nl={showRat (R.rnd (R.rnd (v * v) * v))}"
+  | _ => ""
 
 def showBuildErr : BuildErr → String
   | .nonLinear => "err-nonlinear"
@@ -65,7 +82,7 @@ def evalConv (args : List String) : String :=
       | .ok (.error e) => s!"kind={showBuildErr e} val=-"
       | .ok (.ok (rd, res)) =>
         let lin := match res with
-          | .value _ _ => s!" ~lin={showLinearFloat rd (UInt8.ofNat raw)}"
+          | .value _ _ => s!" ~lin={showLinearFloat rd (UInt8.ofNat raw)}{showLinearised rd (UInt8.ofNat raw)}"
           | _ => ""
         s!"kind={showKind rd} req={rd.lin.number.toNat}/{rd.lin.ownerLUN.toNat} val={showRead res}{lin}"
       | .err => "rec-err"
